@@ -135,8 +135,107 @@ pub fn expr_to_json(e: &Expr) -> Value {
     }
 }
 
+fn entity_name(e: &TsEntityName) -> String {
+    match e {
+        TsEntityName::Ident(i) => i.sym.to_string(),
+        TsEntityName::TsQualifiedName(q) => format!("{}.{}", entity_name(&q.left), q.right.sym),
+    }
+}
+
+/// TypeScript type -> JSON:
+///   {k:"kw",n} | {k:"obj",props:[{name,optional,readonly,type}]} | {k:"union",of} | {k:"inter",of}
+///   | {k:"array",of} | {k:"readonly",of} | {k:"tuple",of} | {k:"ref",n,args} | {k:"lit",v}
+///   | {k:"typeof",n} | {k:"other",what}
+pub fn ts_type_to_json(t: &TsType) -> Value {
+    match t {
+        TsType::TsKeywordType(k) => {
+            let n = match k.kind {
+                TsKeywordTypeKind::TsStringKeyword => "string",
+                TsKeywordTypeKind::TsNumberKeyword => "number",
+                TsKeywordTypeKind::TsBooleanKeyword => "boolean",
+                TsKeywordTypeKind::TsNullKeyword => "null",
+                TsKeywordTypeKind::TsUndefinedKeyword => "undefined",
+                TsKeywordTypeKind::TsUnknownKeyword => "unknown",
+                TsKeywordTypeKind::TsAnyKeyword => "any",
+                TsKeywordTypeKind::TsNeverKeyword => "never",
+                TsKeywordTypeKind::TsVoidKeyword => "void",
+                TsKeywordTypeKind::TsObjectKeyword => "object",
+                _ => "otherkw",
+            };
+            json!({"k": "kw", "n": n})
+        }
+        TsType::TsTypeLit(l) => {
+            let mut props = vec![];
+            for m in &l.members {
+                match m {
+                    TsTypeElement::TsPropertySignature(p) => {
+                        let name = match &*p.key {
+                            Expr::Ident(i) => i.sym.to_string(),
+                            Expr::Lit(Lit::Str(s)) => s.value.to_string(),
+                            Expr::Lit(Lit::Num(n)) => n.value.to_string(),
+                            _ => "$computed".to_string(),
+                        };
+                        let ty = p.type_ann.as_ref().map(|a| ts_type_to_json(&a.type_ann)).unwrap_or(json!({"k": "other", "what": "untyped"}));
+                        props.push(json!({"name": name, "optional": p.optional, "readonly": p.readonly, "type": ty}));
+                    }
+                    _ => props.push(json!({"name": "$member", "optional": false, "readonly": false, "type": {"k": "other", "what": "member"}})),
+                }
+            }
+            json!({"k": "obj", "props": props})
+        }
+        TsType::TsUnionOrIntersectionType(TsUnionOrIntersectionType::TsUnionType(u)) => {
+            json!({"k": "union", "of": u.types.iter().map(|t| ts_type_to_json(t)).collect::<Vec<_>>()})
+        }
+        TsType::TsUnionOrIntersectionType(TsUnionOrIntersectionType::TsIntersectionType(u)) => {
+            json!({"k": "inter", "of": u.types.iter().map(|t| ts_type_to_json(t)).collect::<Vec<_>>()})
+        }
+        TsType::TsParenthesizedType(p) => ts_type_to_json(&p.type_ann),
+        TsType::TsArrayType(a) => json!({"k": "array", "of": ts_type_to_json(&a.elem_type)}),
+        TsType::TsTupleType(t) => json!({"k": "tuple", "of": t.elem_types.iter().map(|e| ts_type_to_json(&e.ty)).collect::<Vec<_>>()}),
+        TsType::TsTypeOperator(o) => json!({"k": "readonly", "of": ts_type_to_json(&o.type_ann)}),
+        TsType::TsTypeRef(r) => {
+            let args: Vec<Value> = r.type_params.as_ref().map(|p| p.params.iter().map(|t| ts_type_to_json(t)).collect()).unwrap_or_default();
+            json!({"k": "ref", "n": entity_name(&r.type_name), "args": args})
+        }
+        TsType::TsLitType(l) => match &l.lit {
+            TsLit::Str(s) => json!({"k": "lit", "v": s.value.to_string()}),
+            TsLit::Number(n) => json!({"k": "lit", "v": n.value}),
+            TsLit::Bool(b) => json!({"k": "lit", "v": b.value}),
+            TsLit::Tpl(t) => {
+                if t.types.is_empty() && t.quasis.len() == 1 {
+                    json!({"k": "lit", "v": t.quasis[0].cooked.as_ref().map(|c| c.to_string()).unwrap_or_default()})
+                } else {
+                    json!({"k": "other", "what": "template"})
+                }
+            }
+            _ => json!({"k": "other", "what": "lit"}),
+        },
+        TsType::TsTypeQuery(q) => match &q.expr_name {
+            TsTypeQueryExpr::TsEntityName(e) => json!({"k": "typeof", "n": entity_name(e)}),
+            _ => json!({"k": "other", "what": "typeof import"}),
+        },
+        TsType::TsFnOrConstructorType(_) => json!({"k": "other", "what": "fn"}),
+        TsType::TsConditionalType(_) => json!({"k": "other", "what": "conditional"}),
+        _ => json!({"k": "other", "what": "type"}),
+    }
+}
+
+fn fn_sig_to_json(name: &str, f: &Function) -> Value {
+    let params: Vec<Value> = f
+        .params
+        .iter()
+        .map(|p| match &p.pat {
+            Pat::Ident(b) => b.type_ann.as_ref().map(|a| ts_type_to_json(&a.type_ann)).unwrap_or(json!({"k": "other", "what": "untyped"})),
+            _ => json!({"k": "other", "what": "pattern"}),
+        })
+        .collect();
+    let ret = f.return_type.as_ref().map(|a| ts_type_to_json(&a.type_ann)).unwrap_or(json!({"k": "other", "what": "none"}));
+    json!({"fn": name, "params": params, "ret": ret, "has_body": f.body.is_some()})
+}
+
 /// { parses, error?, imports: [{from, default?, names: [..], type_only}], dynamic_imports: [..],
-///   consts: {name: json}, default: json, default_ref?: name, exports: [names] }
+///   consts: {name: json}, default: json, default_ref?: name, exports: [names],
+///   types: {alias: type json}, fns: [function signatures in source order (overloads have has_body=false)] }
 pub fn module_to_json(src: &str) -> Value {
     let module = match parse_module(src) {
         Ok(m) => m,
@@ -147,6 +246,8 @@ pub fn module_to_json(src: &str) -> Value {
     let mut default = Value::Null;
     let mut default_ref = Value::Null;
     let mut exports = vec![];
+    let mut types = Map::new();
+    let mut fns = vec![];
     let mut handle_var = |v: &VarDecl, consts: &mut Map<String, Value>| {
         for d in &v.decls {
             if let (Pat::Ident(b), Some(init)) = (&d.name, &d.init) {
@@ -183,9 +284,15 @@ pub fn module_to_json(src: &str) -> Value {
                     }
                     handle_var(v, &mut consts);
                 }
-                Decl::TsTypeAlias(t) => exports.push(json!(t.id.sym.to_string())),
+                Decl::TsTypeAlias(t) => {
+                    exports.push(json!(t.id.sym.to_string()));
+                    types.insert(t.id.sym.to_string(), ts_type_to_json(&t.type_ann));
+                }
                 Decl::TsInterface(t) => exports.push(json!(t.id.sym.to_string())),
-                Decl::Fn(f) => exports.push(json!(f.ident.sym.to_string())),
+                Decl::Fn(f) => {
+                    exports.push(json!(f.ident.sym.to_string()));
+                    fns.push(fn_sig_to_json(&f.ident.sym, &f.function));
+                }
                 _ => {}
             },
             ModuleItem::ModuleDecl(ModuleDecl::ExportNamed(n)) => {
@@ -198,6 +305,10 @@ pub fn module_to_json(src: &str) -> Value {
                 }
             }
             ModuleItem::Stmt(Stmt::Decl(Decl::Var(v))) => handle_var(v, &mut consts),
+            ModuleItem::Stmt(Stmt::Decl(Decl::TsTypeAlias(t))) => {
+                types.insert(t.id.sym.to_string(), ts_type_to_json(&t.type_ann));
+            }
+            ModuleItem::Stmt(Stmt::Decl(Decl::Fn(f))) => fns.push(fn_sig_to_json(&f.ident.sym, &f.function)),
             _ => {}
         }
     }
@@ -212,7 +323,7 @@ pub fn module_to_json(src: &str) -> Value {
         collect_dynamic_imports(v, &mut dynamic);
     }
     json!({"parses": true, "imports": imports, "dynamic_imports": dynamic, "consts": consts,
-           "default": default, "default_ref": default_ref, "exports": exports})
+           "default": default, "default_ref": default_ref, "exports": exports, "types": types, "fns": fns})
 }
 
 fn collect_dynamic_imports(v: &Value, out: &mut Vec<Value>) {
